@@ -87,7 +87,8 @@ def run(tier):
     rng = random.Random(common.seed())
     theorems = ["Props.C07.C07_entry_points_agree", "Props.C07.C07_parse_context_agrees", "Props.C07.C07_recovery_accepts_iff", "Props.C07.C07_recovery_same_code",
                 "Props.C07.C07_recovery_same_trees", "Props.C07.C07_strict_refines", "Props.C07.C07_batch_ok",
-                "Props.C07.C07_batch_first_failure", "Props.C07.C07_batch_all_ok"]
+                "Props.C07.C07_batch_first_failure", "Props.C07.C07_batch_all_ok", "Props.C07.C07_batch_reused_parser",
+                "Props.C07.C07_batch_depth_balanced", "Props.C07.C07_batch_depth_leak_refuted"]
     try:
         with common.Lock():
             common.stage_harness()
